@@ -4,6 +4,7 @@ import (
 	"fmt"
 	"grog/internal/config"
 	"grog/internal/dag"
+	"grog/internal/label"
 	"grog/internal/model"
 	"grog/internal/verifhook"
 	"strings"
@@ -26,6 +27,9 @@ func (s *Selector) SelectTargetsForBuild(
 ) (int, int, error) {
 
 	platformSkipped := 0
+	// nodes whose dependencies have already been selected (and platform-checked): each is expanded once,
+	// otherwise a node is re-expanded once per path that leads to it
+	visited := make(map[label.TargetLabel]struct{})
 	for _, node := range graph.GetNodes() {
 		// Match pattern and test flag
 		if s.nodeMatchesFilters(node) {
@@ -35,7 +39,7 @@ func (s *Selector) SelectTargetsForBuild(
 			}
 
 			node.Select()
-			if err := s.selectAllAncestorsForBuild(graph, []string{node.GetLabel().String()}, node); err != nil {
+			if err := s.selectAllAncestorsForBuild(graph, []string{node.GetLabel().String()}, node, visited); err != nil {
 				return 0, 0, err
 			}
 		}
@@ -58,7 +62,13 @@ func (s *Selector) selectAllAncestorsForBuild(
 	graph *dag.DirectedTargetGraph,
 	depChain []string,
 	node model.BuildNode,
+	visited map[label.TargetLabel]struct{},
 ) error {
+	if _, seen := visited[node.GetLabel()]; seen {
+		return nil
+	}
+	visited[node.GetLabel()] = struct{}{}
+
 	for _, ancestor := range graph.GetDependencies(node) {
 		verifhook.Count("select.ancestors")
 		nextChain := append(append([]string{}, depChain...), ancestor.GetLabel().String())
@@ -69,7 +79,7 @@ func (s *Selector) selectAllAncestorsForBuild(
 		}
 
 		ancestor.Select()
-		if err := s.selectAllAncestorsForBuild(graph, nextChain, ancestor); err != nil {
+		if err := s.selectAllAncestorsForBuild(graph, nextChain, ancestor, visited); err != nil {
 			return err
 		}
 	}
